@@ -27,6 +27,10 @@ def gen(rng, count, sizes, nmaxs):
         else:
             nb, spacing, buckets, nmax = E.layout(rng, n, nmaxs=nmaxs)
         z = E.impedance(rng, nmax, passive=True)
+        if k % 2 == 1 or rng.random() < 0.3:
+            # a table filled over its WHOLE length (an impedance file with more rows than half the frequency grid): the
+            # entries above the Nyquist index belong to no frequency the profile can radiate at and must not enter
+            z = [(zz if i <= nmax // 2 else (f32(rng.uniform(0.1, 2)), f32(rng.uniform(-1, 1)))) for i, zz in enumerate(z)]
         if rng.random() < 0.3:
             z = [(0.0, zz[1]) if rng.random() < 0.3 else zz for zz in z]
         prof = E.profile(rng, n, nb, rng.choice(["gauss", "rand", "impulse"]))
